@@ -642,8 +642,77 @@ def gen_held_case(rng, focus=None):
             "base_us": base_us, "ops": ops, "want_sun": False, "trig_above": rng.random() < 0.2, "state_hold": S}
 
 
+def gen_multi_case(rng, focus=None):
+    """2-3 functions triggered by the same entity x, all guarded on the shared entities y (watched by a fourth function, so
+    its value comes from State.notify_var_last), x and x.old; some are delayed by state_hold, and y may change between the
+    change of x and a delayed evaluation.  Every function is judged on its own occurrences."""
+    legacy = rng.random() < 0.5
+    base_us = us_of_dt(rng.choice(BASE_DAYS)) + rand_tod(rng) // SEC * SEC
+    holds = [TICK // 4 + 37, TICK + 12345, TICK // 2 + 5, 3 * TICK // 2 + 1]
+    nf = rng.choice([2, 2, 3])
+    funcs = []
+    for i in range(nf):
+        r = rng.random()
+        sa = ["eq", 1, rng.randrange(0, 2)] if r < 0.5 else gen_expr(rng, [1, 1, 1, 0, 10], depth=1) if r < 0.85 else ["not", ["eq", 1, rng.randrange(0, 2)]]
+        funcs.append({"sa": sa, "hold": rng.choice(holds) if rng.random() < 0.55 else None, "trig_above": rng.random() < 0.2})
+    if all(f["hold"] is None for f in funcs):
+        funcs[-1]["hold"] = rng.choice(holds)
+    smax = max(f["hold"] or 0 for f in funcs)
+    ops = [{"k": "sety", "t": TICK, "v": rng.randrange(0, 2)}]
+    t = 2 * TICK
+    x = None
+    for _ in range(rng.randint(2, 5)):
+        t += rng.randrange(TICK // 10, 2 * TICK)
+        v = rng.choice([c for c in range(4) if c != x])
+        x = v
+        ops.append({"k": "xset", "t": t, "v": v})
+        marks = sorted({f["hold"] for f in funcs if f["hold"] is not None})
+        for m in marks:
+            ops.append({"k": "collect", "t": t + m})
+        for _y in range(rng.choice([0, 1, 1, 2])):
+            for _try in range(8):
+                ty = t + rng.randrange(TICK // 100, smax + TICK // 4)
+                if all(abs(ty - o["t"]) > TICK // 150 for o in ops):
+                    ops.append({"k": "sety", "t": ty, "v": rng.randrange(0, 2)})
+                    break
+        t += smax + TICK // 3
+    ops.sort(key=lambda o: o["t"])
+    # a value must change for HA to fire state_changed: drop sety ops that repeat the current value
+    y = None
+    keep = []
+    for o in ops:
+        if o["k"] == "sety":
+            if o["v"] == y:
+                continue
+            y = o["v"]
+        keep.append(o)
+    return {"multi": True, "legacy": legacy, "funcs": funcs, "base_us": base_us, "ops": keep}
+
+
+def multi_occurrences(case, fn):
+    """occurrences of one function of a multi case: every change of x, processed `hold` later"""
+    ops = case["ops"]
+    hold = fn.get("hold") or 0
+    occs = []
+    x = None
+    for op in ops:
+        if op["k"] != "xset":
+            continue
+        tp = op["t"] + hold
+        y = None
+        for o in ops:
+            if o["k"] == "sety" and o["t"] <= tp:
+                y = o["v"]
+        occs.append({"kind": "state", "mono": tp, "wall": case["base_us"] + tick_us(tp), "trig": [(0, op["v"]), (10, x)],
+                     "last": [(0, op["v"])] + ([(1, y)] if y is not None else []), "cur": [(0, op["v"]), (1, y), (2, None)],
+                     "exact": False, "value": str(op["v"])})
+        x = op["v"]
+    return occs
+
+
 def gen_stateactive_mixed(rng, focus=None):
-    return gen_held_case(rng, focus) if rng.random() < 0.35 else gen_state_case(rng, focus)
+    r = rng.random()
+    return gen_held_case(rng, focus) if r < 0.3 else gen_multi_case(rng, focus) if r < 0.55 else gen_state_case(rng, focus)
 
 
 # ------------------------------------------------------------------------------------------------
@@ -745,11 +814,11 @@ KIND = {"event": "KEvent", "state": "KState", "time": "KTime", "direct": "KDirec
 
 class GuardStream(Stream):
     requires = "From PV Require Import Time.Windows Trig.Guards Trig.GuardsCheck."
-    case_type = "gcase"
-    check_model = "gcase_model_ok pv_cfg"
-    check_spec = "gcase_spec_ok"
-    attrib = "gcase_attrib pv_cfg"
-    explain = "gcase_explain pv_cfg"
+    case_type = "mcase"
+    check_model = "mcase_model_ok pv_cfg"
+    check_spec = "mcase_spec_ok"
+    attrib = "mcase_attrib pv_cfg"
+    explain = "mcase_explain pv_cfg"
     shard_size = 150
     gen_fn = None
     quick = 300
@@ -774,9 +843,49 @@ class GuardStream(Stream):
         return [o for r in res for o in r]
 
     def prelude(self, ctx, findings, witness_terms):
-        return cfg_prelude([("d_time_active_per_arg", "D15"), ("d_hold_early_update", "D70"), ("d_stale_active_vars", "D71")], findings, witness_terms, "gcase_spec_ok")
+        return cfg_prelude([("d_time_active_per_arg", "D15"), ("d_hold_early_update", "D70"), ("d_stale_active_vars", "D71")], findings, witness_terms, "mcase_spec_ok")
+
+    @staticmethod
+    def _q_occs(occs):
+        return q.lst("mk_occ %s %s %s %s %s %s %s" % (
+            KIND[o["kind"]], q.Z(o["mono"]), q.Z(o["wall"]), _q_env(o["trig"]), _q_env(o["last"]),
+            q.option(None if o["cur"][0][1] is None else q.N(o["cur"][0][1])),
+            q.option(None if o["cur"][1][1] is None else q.N(o["cur"][1][1]))) for o in occs)
+
+    def multi_verdicts(self, case, obs):
+        """attribute the reported runs to the occurrences of each function -> ([runs per function], unattributed)"""
+        runs = [list(r) for r in obs.get("multi_runs", [])]
+        out = []
+        for i, fn in enumerate(case["funcs"]):
+            got = []
+            for o in multi_occurrences(case, fn):
+                want_us = tick_us(o["mono"])
+                hit = None
+                for r in runs:
+                    if r[0] == i and r[1] == o["value"] and abs(r[2] - want_us) < 2000:
+                        hit = r
+                        break
+                if hit is not None:
+                    runs.remove(hit)
+                got.append(hit is not None)
+            out.append(got)
+        return out, len(runs)
+
+    def to_coq_multi(self, case, obs):
+        verdicts, unattributed = self.multi_verdicts(case, obs)
+        terms = []
+        for i, fn in enumerate(case["funcs"]):
+            occs = multi_occurrences(case, fn)
+            extra = (unattributed + int(obs.get("extra", 0))) if i == 0 else 0
+            terms.append("(Build_gcase %s (mk_guards (Some %s) None None false) %s [] %s %s %s %s %s)" % (
+                q.boolean(case["legacy"]), _q_expr(fn["sa"]), q.Z(case["base_us"]), self._q_occs(occs),
+                q.lst("false" for _ in occs), q.lst("None" for _ in occs), q.lst(q.boolean(b) for b in verdicts[i]),
+                q.N(min(extra, 999))))
+        return q.lst(terms)
 
     def to_coq(self, case, obs):
+        if case.get("multi"):
+            return self.to_coq_multi(case, obs)
         occs = occurrences(case)
         ta = case.get("ta")
         g = "(mk_guards %s %s %s %s)" % (
@@ -793,7 +902,7 @@ class GuardStream(Stream):
             startup = case["base_us"]
         seen = list(obs.get("seen", []))
         seen += [None] * (len(occs) - len(seen))
-        return "(Build_gcase %s %s %s %s %s %s %s %s %s)" % (
+        return "[Build_gcase %s %s %s %s %s %s %s %s %s]" % (
             q.boolean(case["legacy"]), g, q.Z(startup),
             q.lst(f"({q.boolean(s)}, {q.Z(d)}, {q.Z(t)})" for s, d, t in obs.get("sun", [])), qo,
             q.lst(q.boolean(o["exact"]) for o in occs),
@@ -801,16 +910,25 @@ class GuardStream(Stream):
             q.lst(q.boolean(b) for b in obs.get("runs", [])), q.N(min(int(obs.get("extra", 0)), 999)))
 
     def nontrivial(self, case, obs):
+        if case.get("multi"):
+            return len(case["funcs"]) >= 2
         runs = obs.get("runs", [])
         return len(runs) >= 2 and (case.get("ta") is not None or case.get("sa") is not None)
 
     def kind(self, case, obs):
+        if case.get("multi"):
+            return f"{'legacy' if case['legacy'] else 'new'}:multi{len(case['funcs'])}:{sum(1 for f in case['funcs'] if f['hold'])}held"
         ta = case.get("ta")
         kinds = "+".join(sorted({o["k"] for o in case["ops"] if o["k"] not in ("sety", "xset")}))
         sp = "none" if ta is None else "/".join(sorted({("not-" if s["neg"] else "") + ("cron" if "cron" in s else "range") for s in ta["specs"]})) or "nospec"
         return f"{'legacy' if case['legacy'] else 'new'}:{kinds}:{sp}:{'hold' if ta and ta.get('hold') else 'nohold'}:{'sa' if case.get('sa') else 'nosa'}"
 
     def describe(self, case, obs):
+        if case.get("multi"):
+            verdicts, unattributed = self.multi_verdicts(case, obs)
+            return {"legacy": case["legacy"], "functions": [{"state_active": f["sa"], "state_hold_s": (f["hold"] / TICK if f["hold"] else None)} for f in case["funcs"]],
+                    "ops": [{k: (v / TICK if k == "t" else v) for k, v in o.items()} for o in case["ops"]], "ran": verdicts,
+                    "unattributed_runs": unattributed, "errors": obs.get("errors")}
         ta = case.get("ta")
         return {"legacy": case["legacy"], "time_active": [("not " if s["neg"] else "") + s["txt"] for s in ta["specs"]] if ta else None,
                 "hold_off_s": (ta["hold"] / TICK if ta and ta.get("hold") is not None else None),
